@@ -419,11 +419,18 @@ def run(ctx):
         k = min(250, n - done)
         run_families(ctx, [draw_family(ctx.rng) for _ in range(k)])
         done += k
+    from . import c19_recursive
+
+    c19_recursive.run_recursive(ctx, 60 if ctx.tier == "quick" else 1500)
 
 
 def replay(ctx, body):
     ctx.lean_check("Mashu.Props.C19", THEOREMS, extra_targets=["Mashu.Dispatch"])
     c = body["case"]
-    if c:
+    if c and "recursive_alias" in c:
+        from . import c19_recursive
+
+        c19_recursive.run_recursive(ctx, 60)
+    elif c:
         run_families(ctx, [c["family"]])
     return ctx.finish()
